@@ -40,6 +40,14 @@ def kv (ts : List String) (key : String) : Option Nat :=
 
 def atT (ts : List String) : Nat := (kv ts "@").getD 0
 
+/-- `tlsinit=-1,-1,7,…`: the initialisers of the thread-local variables (slot index, -1 = none) -/
+def tlsInits (hdr : List String) : Nat → Option Nat :=
+  match hdrGet hdr "tlsinit" with
+  | none => fun _ => none
+  | some t =>
+      let xs := (t.splitOn ",").map fun x => if x = "-1" then none else x.toNat?
+      fun v => (xs[v]?).getD none
+
 def initD (hdr : List String) : Option D := do
   let prim ← hdrGet hdr "prim"
   let nf := (hdr.filter fun t => (parseFid ((t.splitOn "=").headD "")).isSome ∧ t.contains '=').length
@@ -51,8 +59,8 @@ def initD (hdr : List String) : Option D := do
     | "rect" => some (MState.rm (Rm.init true nf))
     | "shared" => some (MState.sm (Sm.init false nf))
     | "sharedt" => some (MState.sm (Sm.init true nf))
-    | "thread" => some (MState.th (Th.init nf))
-    | "tls" => some (MState.th (Th.init nf))
+    | "thread" => some (MState.th (Th.init (tlsInits hdr) nf))
+    | "tls" => some (MState.th (Th.init (tlsInits hdr) nf))
     | _ => none
   pure { m := m, nf := nf }
 
@@ -285,12 +293,13 @@ def thRule (s : Th.State) : Th.Label → String
   | .joinRet _ _ => "th.joinRet"
   | .work _ => "th.work"
   | .finish _ => "th.finish"
-  | .setP _ _ => "th.setP"
-  | .getP f _ => if (s.slot0 f).isSome then "th.getP.own" else "th.getP.default"
-  | .setQ _ _ => "th.setQ"
-  | .copyQP f => if Th.read1 s f = Th.read0 s f then "th.copyQP.same" else "th.copyQP"
-  | .getQ f _ => if (s.slot1 f).isSome then "th.getQ.own" else "th.getQ.default"
-  | .getL _ _ => "th.getL"
+  | .set _ v x =>
+      if x.isSome then "th.set" else (if (s.dflt v).isSome then "th.set.null.initialised" else "th.set.null")
+  | .get f v _ => (match s.slot v f with
+      | some (some _) => "th.get.own"
+      | some none => if (s.dflt v).isSome then "th.get.own.null.initialised" else "th.get.own.null"
+      | none => if (s.dflt v).isSome then "th.get.initialiser" else "th.get.default")
+  | .copy f _ src => if (Th.read s src f).isSome then "th.copy" else "th.copy.null"
   | .sleepStart _ _ _ => "th.sleepStart"
   | .sleepWake _ _ => "th.sleepWake"
 
@@ -308,12 +317,9 @@ def thAct (_s : Th.State) (x : Scratch) (ts : List String) : Act Th.Label :=
         | "ret" :: "join" :: k :: _ => .step (.joinRet f (k.toNat?.getD 0)) x
         | "work" :: _ => .step (.work f) x
         | "done" :: _ => .step (.finish f) x
-        | "call" :: "tls_set" :: v :: _ => .step (.setP f (v.toNat?.getD 0)) x
-        | "ret" :: "tls_get" :: v :: _ => .step (.getP f (parseSlot v)) x
-        | "call" :: "tls_setq" :: v :: _ => .step (.setQ f (v.toNat?.getD 0)) x
-        | "call" :: "tls_copy" :: _ => .step (.copyQP f) x
-        | "ret" :: "tls_getq" :: v :: _ => .step (.getQ f (parseSlot v)) x
-        | "ret" :: "tls_getl" :: v :: _ => .step (.getL f (parseSlot v)) x
+        | "call" :: "tls_set" :: v :: p :: _ => .step (.set f (v.toNat?.getD 0) (parseSlot p)) x
+        | "ret" :: "tls_get" :: v :: p :: _ => .step (.get f (v.toNat?.getD 0) (parseSlot p)) x
+        | "call" :: "tls_copy" :: d :: sr :: _ => .step (.copy f (d.toNat?.getD 0) (sr.toNat?.getD 0)) x
         | "call" :: "sleep" :: d :: _ => .step (.sleepStart f (atT ts) (d.toNat?.getD 0)) x
         | "ret" :: "sleep" :: _ => .step (.sleepWake f (atT ts)) x
         | _ => .skip
@@ -394,7 +400,7 @@ def showD (d : D) : String :=
   | .mx s => s!"mx pc={reprStr (fs.map s.pc)} occupied={s.occupied} mq={s.mq} cq={s.cq} now={s.now} holders={s.holders} transit={s.transit}"
   | .rm s => s!"rm pc={reprStr (fs.map s.pc)} owner={s.owner} count={s.count} rq={s.rq} now={s.now} holders={s.holders}"
   | .sm s => s!"sm pc={reprStr (fs.map s.pc)} occ={s.occ} excl={s.excl} cnt={s.cnt} sq={s.sq} eq={s.eq} now={s.now} xh={s.xh} sh={s.sh} transit={s.transit}"
-  | .th s => s!"th pc={reprStr (fs.map s.pc)} fin={fs.map s.fin} slot0={fs.map s.slot0} slot1={fs.map s.slot1} def0={s.def0} def1={s.def1} now={s.now}"
+  | .th s => s!"th pc={reprStr (fs.map s.pc)} fin={fs.map s.fin} slots(var x fiber)={(List.range 6).map fun v => fs.map (s.slot v)} defaults={(List.range 6).map s.dflt} now={s.now}"
 
 def model : TraceModel :=
   { σ := D, init := initD, step := stepD, final := finalD, showState := showD }
